@@ -218,6 +218,12 @@ def check_c03(ck, reps, outs, yscale):
             continue
         if not o.get("inputs_restored", True):
             ck.violation({"clause": "inputs_restored"}, "inputs not restored after a successful solve of %s" % describe(rep), describe(rep))
+        rp = o.get("repeat")
+        if rp is not None:
+            ck.case(("repeat",) + rep_key(rep), True)
+            if rp.get("raised") or not rp.get("second_equals_first") or not rp.get("equals_fresh_arrays") or not rp.get("input_drift", 0.0) <= 1e-14:
+                ck.violation({"clause": "repeat_call", "detail": "raised" if rp.get("raised") else ("results" if not (rp.get("second_equals_first") and rp.get("equals_fresh_arrays")) else "inputs")},
+                             "two radial_solver calls with the same array objects: %s for %s" % (rp, describe(rep)), describe(rep))
         b = base_of(rep, idx)
         if b is None or not converged(o) or not converged(b):
             stats["skipped_unconverged"] += 1
